@@ -144,6 +144,33 @@ inline void run_docsig(long &kc) {
 				// length changes: one octet appended / removed
 				if (true) { Oct t(data); t.push_back(0); st.evals++; count("flip/docsig/data.append"); if (accepted([&] { return sig->VerifyData(K->key, t, 0); })) viol("C20/tamper-accepted/docsig/data.append", "document with an appended zero octet accepted", cj); }
 				if (!data.empty()) { Oct t(data.begin(), data.end() - 1); st.evals++; count("flip/docsig/data.truncate"); if (accepted([&] { return sig->VerifyData(K->key, t, 0); })) viol("C20/tamper-accepted/docsig/data.truncate", "document without its last octet accepted", cj); }
+				// text signatures: insertion / deletion of CR and LF octets.  Two reference canonicalisations written from RFC 4880 5.2.1
+				// (A: line ending = LF or CR LF, a lone CR is content; B: every CR, LF and CR LF is a line ending); an edit that changes the
+				// text under BOTH readings is certainly an alteration of the signed data and must be rejected; edits that keep the text
+				// under either reading (LF <-> CR LF) are counted, not judged here (seeded change c20_texthash_lone_cr_dropped)
+				if (c.type == 1) {
+					auto canon = [](const Oct &t, bool lone_cr_is_eol) { Oct o; for (size_t i = 0; i < t.size(); i++) {
+						if (t[i] == '\r') { if (i + 1 < t.size() && t[i + 1] == '\n') { o.push_back('\r'); o.push_back('\n'); i++; } else if (lone_cr_is_eol) { o.push_back('\r'); o.push_back('\n'); } else o.push_back('\r'); }
+						else if (t[i] == '\n') { o.push_back('\r'); o.push_back('\n'); } else o.push_back(t[i]); } return o; };
+					Oct cA = canon(data, false), cB = canon(data, true);
+					std::vector<std::pair<std::string, Oct>> edits;
+					std::vector<size_t> eolpos; for (size_t i = 0; i < data.size(); i++) if (data[i] == '\r' || data[i] == '\n') eolpos.push_back(i);
+					for (size_t q = 0; q < eolpos.size() && q < 24; q++) { size_t i = eolpos[eolpos.size() <= 24 ? q : r.below(eolpos.size())];
+						{ Oct t(data); t.erase(t.begin() + (long)i); edits.push_back({data[i] == '\r' ? "text.cr-delete" : "text.lf-delete", t}); }
+						{ Oct t(data); t.insert(t.begin() + (long)i, (tmcg_openpgp_byte_t)'\r'); edits.push_back({"text.cr-insert-at-eol", t}); } }
+					for (int q = 0; q < 8; q++) { size_t i = data.empty() ? 0 : r.below(data.size() + 1);
+						{ Oct t(data); t.insert(t.begin() + (long)i, (tmcg_openpgp_byte_t)'\r'); edits.push_back({"text.cr-insert", t}); }
+						{ Oct t(data); t.insert(t.begin() + (long)i, (tmcg_openpgp_byte_t)'\n'); edits.push_back({"text.lf-insert", t}); } }
+					{ Oct t(data); t.push_back('\r'); edits.push_back({"text.cr-append", t}); }
+					{ Oct t(data); t.insert(t.begin(), (tmcg_openpgp_byte_t)'\r'); edits.push_back({"text.cr-prepend", t}); }
+					for (auto &e : edits) {
+						bool altered = canon(e.second, false) != cA && canon(e.second, true) != cB; st.evals++;
+						bool acc = accepted([&] { return sig->VerifyData(K->key, e.second, 0); });
+						count(std::string("flip/docsig/") + e.first); count(altered ? "text_edits_judged_altered" : "text_edits_equivalent_under_a_reading");
+						if (altered && acc) viol("C20/tamper-accepted/docsig/" + e.first, "text document with an inserted/deleted line-ending octet (different text under both readings of the canonicalisation rule) still verifies", cj);
+						if (!altered && !acc) count("text_edits_equivalent_rejected");
+					}
+				}
 				delete sig; } }
 			// ---- tamper: signature packet
 			{ Layout LS = walk(a.pkt);
